@@ -28,7 +28,7 @@ use x25519_dalek::PublicKey;
 pub static DEF: PropDef = PropDef {
     id: "C19",
     level: "exploration",
-    rule: "a real Discret instance creates invitations; harness-played remote sides connect with the invitation token or an allowed-peer token and answer the identity challenge with one of: correct proof; signature by another key; an answer recorded on another connection; a valid proof by another allowed peer's key; a peer row with the wrong entity, with a room, with a bad signature, with an empty key; no answer; and the same invitation used by a second and third key, sequentially and racing; invitation bytes for another application, truncated or bit-flipped are given to accept_invite. Event-log oracle: every trust event for key K on connection c (Ready sent to the remote, PeerConnected(K), room list served, allowed peer created) must be preceded by a proof sent on c that is a signature by K of c's own fresh challenge; challenges are pairwise distinct; one invitation yields at most one allowed peer; plus token symmetry / distinctness on sampled key pairs. non-trivial = case with an accepted and a refused connection; distinct = behaviour sequence",
+    rule: "a real Discret instance creates invitations; harness-played remote sides connect with the invitation token or an allowed-peer token and answer the identity challenge with one of: correct proof; signature by another key; an answer recorded on another connection; a valid proof by another allowed peer's key; a peer row with the wrong entity, with a room, with a bad signature, with an empty key; no answer; and the same invitation used by a second and third key, sequentially and racing; invitation bytes for another application, truncated or bit-flipped are given to accept_invite. Event-log oracle: every trust event for key K on connection c (Ready sent to the remote, PeerConnected(K), room list served, allowed peer created) must be preceded by a proof sent on c that is a signature by K of c's own fresh challenge; challenges are pairwise distinct; one invitation yields at most one allowed peer; plus token symmetry / distinctness on sampled key pairs. non-trivial = case with an accepted and a refused connection; distinct = behaviour sequence Six room-list requests are pipelined right behind the identity answer; the valid-proof-by-another-key behaviour is played four times per case.",
     assumptions: &[
         "the transport (QUIC, certificate pinning) is not part of this check; a live relay of the challenge to the genuine key holder is out of reach",
         "distinctness of tokens between pairs is a 56-bit hash property: sampled only",
